@@ -1,21 +1,35 @@
 """C18 -- border relocation only pulls outliers radially inward to the border.
 
-Coordinates in the JSON inputs are integers k meaning k/16 (so that every double operation of the implementation
-except sqrt, the division by the number of border points and the final move is exact)."""
+Coordinates in the JSON inputs are integers k meaning k/den (den = inp["den"], a power of two, default 16; so that
+every double operation of the implementation except sqrt, the division by the number of border points and the final
+move is exact).  den = 64 / 256 gives border radii well below 1.0 (squared vs un-squared radius mix-ups show).
+
+op "hist" is a HISTORY: BorderRelocator objects on one Mask2D object, a pool of data-grid / mesh-grid objects, and a
+sequence of calls on them (any order, the same object for several different grids, results of earlier calls used as
+later inputs, in-place edits of a grid by the caller between calls, preloaded data grids); every call is judged on
+its own current arguments (Model/C18.v run_history / pure_call, theorem C18_history_is_stateless)."""
 import itertools, math
 from fractions import Fraction
 import numpy as np
-from harness.common import cz, cq, cnat, cbool, clist, ctup, copt, cres, call_res, import_aa, frac
+from harness.common import cz, cq, cnat, cbool, clist, ctup, copt, cres, call_res, import_aa, frac, exn_name
 
 ID = "C18"
 GEN = []
 PROPS = "Props/C18.v"
 COQ_CHECK = ("Model.C18", "check")
 COQ_FALLBACK = ("Model.C18", "spec_ok")
-COQ_IMPORTS = ""
+COQ_IMPORTS = "From PAV Require Import Base.NumOps."
 SHARD = 250
 DEN = 16
-RULE = ("(a) util relocated_grid_via_jit_from: exhaustive small lattice borders x all lattice points, plus random borders "
+RULE = ("(h) histories (op hist): 1-2 BorderRelocator objects on one Mask2D object (sub-size maps equal, permuted or "
+        "different), 2-5 data grids and 2-3 mesh grids, 3-9 calls in random order through BorderRelocator, "
+        "AbstractMesh.relocated_grid_from / relocated_mesh_grid_from, Delaunay/Voronoi/Rectangular mapper_grids_from with and "
+        "without preloads.relocated_grid, reads of sub_border_slim / sub_border_grid in between, results kept and used as "
+        "later data grids, containers Grid2DIrregular over the caller's ndarray / Grid2D / results of arithmetic, in-place "
+        "edits of a grid between calls; after every call all pooled objects are compared with their tracked contents "
+        "(no argument is written); half of the histories start with relocated_grid_from(G1) followed by a mesh relocation "
+        "for another grid G2.  (s) power-of-two scale equivariance (2^-40 .. 2^40) of the util function and the class, "
+        "bit for bit on untouched points.  (a) util relocated_grid_via_jit_from: exhaustive small lattice borders x all lattice points, plus random borders "
         "(convex, non-convex, off-centre, duplicated points) with grids of far outliers, interior points, points exactly "
         "at border points / at the centroid; (b) BorderRelocator.relocated_grid_from / relocated_mesh_grid_from and "
         "Delaunay/Voronoi/Rectangular mapper_grids_from on random and structured masks (<= 7x7), sub-size maps from {1,2,4} given as "
@@ -26,7 +40,8 @@ RULE = ("(a) util relocated_grid_via_jit_from: exhaustive small lattice borders 
         "1e-6 band between non-identical coordinates is skipped and counted (kind skipped_band). distinct = distinct JSON "
         "input; non-trivial = not skipped, not an empty grid.")
 EXHAUSTIVE = {
-    "quick": "all boolean masks of all shapes with H*W <= 9 (sub_border_slim with sub-size 1, 2 and one random {1,2,4} map; "
+    "quick": "hand-made histories replays/C18/corpus/hist_*.json (relocate G1 then mesh of G2: direct / AbstractMesh / preloaded mapper; "
+             "relocate-edit-relocate; two objects of one mask with permuted sub-size maps); all boolean masks of all shapes with H*W <= 9 (sub_border_slim with sub-size 1, 2 and one random {1,2,4} map; "
              "border_slim_indexes_from); util relocation: all 3-point borders on the {-1,0,1}^2 lattice against all 25 points of "
              "{-2..2}^2",
     "thorough": "as quick with H*W <= 11 and all 3- and 4-point borders on the {-1,0,1}^2 lattice",
@@ -49,48 +64,59 @@ def extra_evidence():
             "points_outside_min_radius_kept": STATS["outside_kept"], "points_identical_to_a_border_point": STATS["at_border"]}
 
 # ----------------------------------------------------------------------------- printing
-def q16(k): return cq(Fraction(int(k), DEN))
-def cpt16(p): return ctup([q16(p[0]), q16(p[1])])
-def cpts16(l): return clist([cpt16(p) for p in l])
+def F(p, den=DEN): return (Fraction(int(p[0]), den), Fraction(int(p[1]), den))
+def Fs(l, den=DEN): return [F(p, den) for p in l]
+def cptF(p): return ctup([cq(p[0]), cq(p[1])])
+def cptsF(l): return clist([cptF(p) for p in l])
+def cpt16(p, den=DEN): return cptF(F(p, den))
+def cpts16(l, den=DEN): return cptsF(Fs(l, den))
 def cptf(p): return ctup([cq(frac(p[0])), cq(frac(p[1]))])
 def cptsf(l): return clist([cptf(p) for p in l])
 def cmask(m): return clist([clist([cbool(v) for v in row]) for row in m])
 def cnats(l): return clist([cnat(v) for v in l])
-def arr16(l): return np.array([[p[0] / DEN, p[1] / DEN] for p in l], dtype=float).reshape(-1, 2)
+def arr16(l, den=DEN): return np.array([[p[0] / den, p[1] / den] for p in l], dtype=float).reshape(-1, 2)
+def arrF(l): return np.array([[float(p[0]), float(p[1])] for p in l], dtype=float).reshape(-1, 2)
 def pts_out(a): return [[float(v[0]), float(v[1])] for v in np.asarray(a).reshape(-1, 2)]
+def fr_pts(a): return [(Fraction(float(v[0])), Fraction(float(v[1]))) for v in np.asarray(a).reshape(-1, 2)]
 
 # ----------------------------------------------------------------------------- decision band (exact)
-def in_band(grid16, border16):
-    """True if some decision of the relocation of grid against border is closer than 1e-6 between coordinates that are
-    not numerically identical.  Also tallies the kinds of point."""
-    n = len(border16)
+def in_band(grid16, border16, den=DEN, tally=True):
+    return in_band_F(Fs(grid16, den), Fs(border16, den), tally)
+
+def in_band_F(G, B, tally=True):
+    """True if some decision of the relocation of grid G against border B (exact Fractions) is closer than 1e-6 between
+    coordinates that are not numerically identical.  Also tallies the kinds of point."""
+    n = len(B)
     if n == 0: return False
-    B = [(Fraction(b[0], DEN), Fraction(b[1], DEN)) for b in border16]
     cy = sum(b[0] for b in B) / n; cx = sum(b[1] for b in B) / n
     r2 = lambda p: (p[0] - cy) ** 2 + (p[1] - cx) ** 2
     br2 = [r2(b) for b in B]
     bmin2 = min(br2); bmin = math.sqrt(bmin2)
-    minimal = {tuple(border16[i]) for i in range(n) if br2[i] == bmin2}
-    bset = {tuple(b) for b in border16}
+    minimal = {B[i] for i in range(n) if br2[i] == bmin2}
+    bset = set(B)
+    inexact = any(c.denominator > (1 << 16) for q in list(G) + list(B) for c in q)
     tal = {"points": 0, "moved": 0, "interior": 0, "outside_kept": 0, "at_border": 0}
-    for p16 in grid16:
-        p = (Fraction(p16[0], DEN), Fraction(p16[1], DEN))
+    for p in G:
         rp2 = r2(p); rp = math.sqrt(rp2)
         tal["points"] += 1
-        if tuple(p16) in bset: tal["at_border"] += 1
-        if tuple(p16) in minimal:
+        if p in bset: tal["at_border"] += 1
+        if p in minimal:
             tal["interior"] += 1; continue
-        if abs(rp - bmin) < 2e-6: return True
+        if abs(rp - bmin) < 2e-6 * max(1.0, bmin): return True
         if rp2 <= bmin2:
             tal["interior"] += 1; continue
         d2 = [(p[0] - b[0]) ** 2 + (p[1] - b[1]) ** 2 for b in B]
         k = d2.index(min(d2))
-        if tuple(border16[k]) == tuple(p16):
+        if B[k] == p:
             tal["outside_kept"] += 1; continue
         rb = math.sqrt(br2[k])
-        if abs(rb - rp) < 2e-6: return True
+        if abs(rb - rp) < 2e-6 * max(1.0, rp): return True
+        if inexact:      # results of earlier calls as inputs: the squared distances are rounded by the implementation
+            for j in range(n):
+                if br2[j] != br2[k] and abs(float(d2[j] - d2[k])) <= 1e-9 * max(1.0, float(d2[k])): return True
         tal["moved" if rb < rp else "outside_kept"] += 1
-    for k, v in tal.items(): STATS[k] += v
+    if tally:
+        for k, v in tal.items(): STATS[k] += v
     return False
 
 # ----------------------------------------------------------------------------- generators
@@ -177,8 +203,15 @@ def distort(rng, pts):
     return out
 
 def rand_border(rng):
-    kind = rng.choice(["circle", "nonconvex", "offcentre", "random", "dup", "line", "single"])
+    kind = rng.choice(["circle", "nonconvex", "offcentre", "random", "dup", "line", "single", "sym", "sym"])
     n = rng.randint(3, 10)
+    if kind == "sym":          # point-symmetric: the centroid is a lattice point; it may itself be a border point (radius 0)
+        oy, ox = rng.randint(-32, 32), rng.randint(-32, 32); pts = []
+        for _ in range(rng.randint(1, 4)):
+            a, b = rng.randint(-40, 40), rng.randint(-40, 40)
+            pts += [[oy + a, ox + b], [oy - a, ox - b]]
+        if rng.random() < 0.4: pts.insert(rng.randrange(len(pts) + 1), [oy, ox])
+        return pts
     if kind == "single": return [[rng.randint(-32, 32), rng.randint(-32, 32)]]
     if kind == "line": return [[rng.randint(-32, 32), 5] for _ in range(n)]
     R = rng.choice([16, 32, 48]); oy, ox = (rng.randint(-64, 64), rng.randint(-64, 64)) if kind != "circle" else (0, 0)
@@ -196,7 +229,9 @@ def rand_points(rng, border, k):
     pts = []
     for _ in range(k):
         c = rng.random()
-        if c < 0.2 and border: pts.append(list(rng.choice(border)))                         # exactly at a border point
+        if c < 0.08 and border and sum(b[0] for b in border) % len(border) == 0 and sum(b[1] for b in border) % len(border) == 0:
+            pts.append([sum(b[0] for b in border) // len(border), sum(b[1] for b in border) // len(border)])   # the centroid itself
+        elif c < 0.2 and border: pts.append(list(rng.choice(border)))                         # exactly at a border point
         elif c < 0.45: pts.append([rng.randint(-2048, 2048), rng.randint(-2048, 2048)])     # far outside
         elif c < 0.55 and border:
             b = rng.choice(border); pts.append([b[0] + rng.randint(-1, 1), b[1] + rng.randint(-1, 1)])   # next to the border
@@ -215,14 +250,14 @@ def _gen_inputs(tier, rng):
     lat = [(y, x) for y in (-1, 0, 1) for x in (-1, 0, 1)]
     allp = [[y * DEN, x * DEN] for y in range(-2, 3) for x in range(-2, 3)]
     for k in ((3, 4) if big else (3,)):
-        for comb in itertools.combinations(lat, k):
-            yield {"op": "util", "grid": allp, "border": [[y * DEN, x * DEN] for (y, x) in comb]}
+        for ci, comb in enumerate(itertools.combinations(lat, k)):
+            yield {"op": "util", "grid": allp, "border": [[y * DEN, x * DEN] for (y, x) in comb], "den": (16, 64, 256)[ci % 3]}
     yield {"op": "util", "grid": allp[:3], "border": []}
     yield {"op": "util", "grid": [], "border": [[0, 0], [16, 0]]}
     # ---- (a) util, random
     for _ in range(1000 if big else 150):
         b = rand_border(rng)
-        yield {"op": "util", "grid": rand_points(rng, b, rng.randint(1, 10)), "border": b}
+        yield {"op": "util", "grid": rand_points(rng, b, rng.randint(1, 10)), "border": b, "den": rng.choice([16, 64, 256])}
     # ---- (c) exhaustive masks
     lim = 11 if big else 9
     for h in range(1, lim + 1):
@@ -237,14 +272,14 @@ def _gen_inputs(tier, rng):
                 yield {"op": "subborder", "mask": m, "sub": {"kind": "ndarray", "v": [rng.choice([1, 2, 4]) for _ in range(n)]},
                        "via": "util" if (n + w) % 2 else "class"}
     # ---- (b), (c) random masks through the public classes
-    for i in range(1200 if big else 180):
+    for i in range(1200 if big else 120):
         while True:
             m = rand_mask(rng); n = npix(m); sub = rand_sub(rng, n); subs = sub_list(sub, n)
             if sum(v * v for v in subs) <= (64 if big else 40): break
         grid = distort(rng, unit_sub_grid16(m, subs))
         mesh = rand_points(rng, grid, rng.randint(1, 6))
         op = ("reloc", "mesh", "mapper")[i % 3]
-        yield {"op": op, "mask": m, "sub": sub, "grid": grid, "mesh": mesh,
+        yield {"op": op, "mask": m, "sub": sub, "grid": grid, "mesh": mesh, "den": rng.choice([16, 64]),
                "mesh_kind": rng.choice(["Delaunay", "Voronoi", "Rectangular"] if op == "mapper" else ["Delaunay", "Voronoi"]),
                "container": rng.choice(["irregular", "grid2d"]) if all(s == 1 for s in subs) else "irregular"}
         if i % 3 == 0:
@@ -254,12 +289,291 @@ def _gen_inputs(tier, rng):
             yield {"op": "borderidx", "mask": m}
     yield {"op": "mapper", "mask": None, "sub": None, "grid": [[1, 2], [300, 4]], "mesh": [[5, 6]], "mesh_kind": "Delaunay",
            "container": "irregular"}
+    # ---- (h) histories on BorderRelocator objects, (s) scale equivariance
+    for _ in range(700 if big else 100): yield gen_hist(rng, big)
+    for i in range(300 if big else 45):
+        if i % 3: yield gen_scale(rng)
+        else:
+            while True:
+                m = rand_mask(rng); n = npix(m); sub = rand_sub(rng, n); subs = sub_list(sub, n)
+                if total_sub(subs) <= 32: break
+            yield {"op": "scale", "via": "class", "mask": m, "sub": sub, "grid": distort(rng, unit_sub_grid16(m, subs)),
+                   "den": rng.choice([16, 64]), "e": rng.choice([-40, -30, -27, -20, 20, 30, 40])}
     # ---- (d) furthest
     for _ in range(1500 if big else 200):
         n = rng.randint(1, 9); span = rng.choice([1, 2, 8])
         g = [[rng.randint(-span, span) * 8, rng.randint(-span, span) * 8] for _ in range(n)]
         idx = [rng.randrange(n) for _ in range(rng.randint(0, 6))]
         yield {"op": "furthest", "grid": g, "idx": idx, "c": [rng.randint(-span, span) * 4, rng.randint(-span, span) * 4]}
+
+# ----------------------------------------------------------------------------- histories
+def total_sub(subs): return sum(v * v for v in subs)
+
+def gen_hist(rng, big):
+    cap = 32 if big else 16
+    while True:
+        m = rand_mask(rng); n = npix(m); sub0 = rand_sub(rng, n); s0 = sub_list(sub0, n)
+        if total_sub(s0) <= cap: break
+    subs = [sub0]
+    k = rng.random()
+    if k < 0.35 and len(set(s0)) > 1:                                # same mask object, permuted sub-size map
+        v = list(s0)
+        while v == s0: rng.shuffle(v)
+        subs.append({"kind": rng.choice(["ndarray", "array2d"]), "v": v})
+    elif k < 0.45: subs.append(dict(sub0))                           # a second object with the same arguments
+    elif k < 0.7:
+        for _ in range(20):
+            sub1 = rand_sub(rng, n)
+            if total_sub(sub_list(sub1, n)) <= cap and sub_list(sub1, n) != s0: subs.append(sub1); break
+    totals = [total_sub(sub_list(sb, n)) for sb in subs]
+    den = rng.choice([16, 64, 64])
+    grids = []
+    for r, sb in enumerate(subs):
+        for _ in range(rng.randint(2, 3) if r == 0 else rng.randint(1, 2)):
+            sl = sub_list(sb, n)
+            cont = rng.choice(["irregular", "irregular", "derived"] +
+                              (["grid2d", "derived2d", "slim2d"] if all(v == 1 for v in sl) else ["irregular", "derived"]))
+            grids.append({"n": totals[r], "pts": distort(rng, unit_sub_grid16(m, sl)), "container": cont})
+    meshes = []
+    for _ in range(rng.randint(2, 3)):
+        g = rng.choice(grids)["pts"]
+        meshes.append({"pts": rand_points(rng, g, rng.randint(1, 5)), "container": rng.choice(["irregular", "derived"])})
+    # steps; pool indexes of kept results are known in advance (len(grids) + number of keeps so far)
+    pool_n = [g["n"] for g in grids]
+    def pick_grid(r, avoid=None):
+        c = [i for i, nn in enumerate(pool_n) if nn == totals[r] and i != avoid]
+        if not c: c = [i for i, nn in enumerate(pool_n) if nn == totals[r]]
+        return rng.choice(c)
+    steps = []
+    tmpl = rng.random()
+    if tmpl < 0.2:             # relocate, the caller edits the same grid object in place, relocate / use it again
+        r = 0; g1 = pick_grid(r)
+        steps.append({"do": "reloc", "r": r, "g": g1, "via": rng.choice(["rel", "meshapi"])})
+        for _ in range(rng.randint(1, 2)):
+            steps.append({"do": "edit", "g": g1, "j": rng.randrange(pool_n[g1]), "border": rng.random() < 0.5,
+                          "p": [rng.randint(-1024, 1024), rng.randint(-1024, 1024)]})
+        if rng.random() < 0.6: steps.append({"do": "reloc", "r": r, "g": g1, "via": rng.choice(["rel", "meshapi"])})
+        else: steps.append({"do": "mesh", "r": r, "g": g1, "v": rng.randrange(len(meshes)), "via": rng.choice(["rel", "meshapi"])})
+    elif tmpl < 0.35 and len(subs) > 1:     # the two objects of one mask alternate
+        for r in rng.choice([(0, 1), (1, 0), (0, 1, 0)]):
+            if rng.random() < 0.3: steps.append({"do": "subborder", "r": r})
+            elif rng.random() < 0.5: steps.append({"do": "reloc", "r": r, "g": pick_grid(r), "via": "rel"})
+            else: steps.append({"do": "mesh", "r": r, "g": pick_grid(r), "v": rng.randrange(len(meshes)), "via": "rel"})
+    elif tmpl < 0.7:           # a grid is relocated, then the mesh of ANOTHER data grid on the same object
+        r = 0; g1 = pick_grid(r); g2 = pick_grid(r, avoid=g1)
+        steps.append({"do": "reloc", "r": r, "g": g1, "via": rng.choice(["rel", "meshapi", "mapper"])})
+        k = rng.random()
+        if k < 0.4: steps.append({"do": "mesh", "r": r, "g": g2, "v": rng.randrange(len(meshes)), "via": rng.choice(["rel", "meshapi"])})
+        elif k < 0.7: steps.append({"do": "mapper", "r": r, "g": g1, "pre": g2, "v": rng.randrange(len(meshes)),
+                                    "kind": rng.choice(["Delaunay", "Voronoi"])})
+        else: steps.append({"do": "mapper", "r": r, "g": g2, "pre": None, "v": rng.randrange(len(meshes)),
+                            "kind": rng.choice(["Delaunay", "Voronoi"])})
+    for _ in range(rng.randint(2, 7)):
+        r = rng.randrange(len(subs)); k = rng.random()
+        if k < 0.27:
+            st = {"do": "reloc", "r": r, "g": pick_grid(r), "via": rng.choice(["rel", "rel", "meshapi", "rect"])}
+            if rng.random() < 0.35: st["keep"] = True; pool_n.append(totals[r])
+            steps.append(st)
+        elif k < 0.55:
+            steps.append({"do": "mesh", "r": r, "g": pick_grid(r), "v": rng.randrange(len(meshes)), "via": rng.choice(["rel", "meshapi"])})
+        elif k < 0.75:
+            none_rel = rng.random() < 0.1
+            steps.append({"do": "mapper", "r": None if none_rel else r, "g": pick_grid(r),
+                          "pre": pick_grid(r) if rng.random() < 0.45 else None, "v": rng.randrange(len(meshes)),
+                          "kind": rng.choice(["Delaunay", "Voronoi"])})
+        elif k < 0.81: steps.append({"do": "subborder", "r": r})
+        elif k < 0.86: steps.append({"do": "subbordergrid", "r": r})
+        elif k < 0.95:
+            gi = rng.randrange(len(pool_n))
+            steps.append({"do": "edit", "g": gi, "j": rng.randrange(pool_n[gi]),
+                          "p": [rng.randint(-1024, 1024), rng.randint(-1024, 1024)] if rng.random() < 0.6 else
+                               [rng.randint(-64, 64), rng.randint(-64, 64)]})
+        else:
+            vi = rng.randrange(len(meshes))
+            steps.append({"do": "editmesh", "v": vi, "j": rng.randrange(len(meshes[vi]["pts"])),
+                          "p": [rng.randint(-1024, 1024), rng.randint(-1024, 1024)]})
+    return {"op": "hist", "mask": m, "subs": subs, "den": den, "ps": rng.choice([[16, 16], [8, 8], [32, 16]]),
+            "origin": [rng.randint(-4, 4) * 4, rng.randint(-4, 4) * 4], "grids": grids, "meshes": meshes, "steps": steps}
+
+def make_container(aa, kind, vals, mask):
+    """returns (object handed to the implementation, the caller's ndarray it is built over or None)"""
+    if kind == "irregular": return aa.Grid2DIrregular(values=vals), vals          # aliases the caller's array
+    if kind == "grid2d": return aa.Grid2D(values=vals, mask=mask), None
+    if kind == "derived": return (aa.Grid2DIrregular(values=vals * 0.5 - 3.0) + 3.0) * 2.0, None     # exact in doubles
+    if kind == "slim2d": return aa.Grid2D(values=vals, mask=mask).native.slim, None                  # native and back
+    if kind == "derived2d": return (aa.Grid2D(values=vals * 0.5 - 3.0, mask=mask) + 3.0) * 2.0, None
+    raise ValueError(kind)
+
+def run_hist(aa, inp, skipped):
+    from autoarray.preloads import Preloads
+    den = inp["den"]; m = inp["mask"]; n = npix(m)
+    marr = np.array(m, dtype=bool)
+    ps = tuple(v / DEN for v in inp["ps"]); org = tuple(v / DEN for v in inp["origin"])
+    mask = aa.Mask2D(mask=marr, pixel_scales=ps, origin=org)
+    def relocator(sub, msk):
+        if sub["kind"] == "int": ss = int(sub["v"])
+        elif sub["kind"] == "ndarray": ss = np.array(sub["v"], dtype=int)
+        else: ss = aa.Array2D(values=np.array(sub["v"], dtype=int), mask=msk)
+        return aa.BorderRelocator(mask=msk, sub_size=ss)
+    rels = [relocator(sb, mask) for sb in inp["subs"]]                 # ONE Mask2D object
+    subl = [sub_list(sb, n) for sb in inp["subs"]]
+    # twins, used only to decide which calls fall into the undecided band (never handed to the calls under test)
+    twin_mask = aa.Mask2D(mask=marr.copy(), pixel_scales=ps, origin=org)
+    twin_sbs = [[int(v) for v in relocator(sb, twin_mask).sub_border_slim] for sb in inp["subs"]]
+    first_sbs = [None] * len(rels)
+    pool = []                                                          # [object, tracked contents (Fractions), caller's array]
+    for g in inp["grids"]:
+        obj, own = make_container(aa, g["container"], arr16(g["pts"], den), mask)
+        pool.append([obj, Fs(g["pts"], den), own])
+    meshes = []
+    for v in inp["meshes"]:
+        obj, own = make_container(aa, v["container"], arr16(v["pts"], den), mask)
+        meshes.append([obj, Fs(v["pts"], den), own])
+    ok = True; notes = []; terms = []; outs = []; done = 0
+    # ONE mesh object per kind for the whole history (AbstractMesh.relocated_grid_from and relocated_mesh_grid_from are called
+    # on the same Delaunay object; the mappers on the Delaunay / Voronoi / Rectangular objects)
+    MESH = {"Delaunay": aa.mesh.Delaunay(), "Voronoi": aa.mesh.Voronoi(), "Rectangular": aa.mesh.Rectangular(shape=(3, 3))}
+    def same(obj, cont): return bool((np.array(obj).reshape(-1, 2) == arrF(cont)).all()) if len(cont) else True
+    def audit(tag):
+        nonlocal ok
+        for i, (o, c, _) in enumerate(pool):
+            if not same(o, c): ok = False; notes.append(f"{tag}: data grid {i} was written")
+        for i, (o, c, _) in enumerate(meshes):
+            if not same(o, c): ok = False; notes.append(f"{tag}: mesh grid {i} was written")
+    def read_sbs(r, tag):
+        nonlocal ok
+        v = [int(k) for k in rels[r].sub_border_slim]
+        if first_sbs[r] is None: first_sbs[r] = v
+        elif v != first_sbs[r]: ok = False; notes.append(f"{tag}: sub_border_slim of relocator {r} changed")
+    def border_of(cont, r): return [cont[k] for k in twin_sbs[r] if 0 <= k < len(cont)]
+    pair = lambda v: ctup([cptsf(v[0]), cptsf(v[1])])
+    for si, st in enumerate(inp["steps"]):
+        do = st["do"]; tag = f"step {si} {do}"
+        if do == "edit":
+            if st["g"] >= len(pool): continue
+            o, c, own = pool[st["g"]]; j = st["j"] % len(c); newp = F(st["p"], den)
+            if st.get("border") and len(c) == total_sub(subl[0]) and twin_sbs[0]:
+                j = twin_sbs[0][st["j"] % len(twin_sbs[0])]                     # a point of the border itself moves
+                newp = (c[j][0] + Fraction(st["p"][0] % 9 - 4, den), c[j][1] + Fraction(st["p"][1] % 9 - 4, den))
+            if own is not None: own[j] = [float(newp[0]), float(newp[1])]      # the caller writes into his own array
+            else: o[j] = [float(newp[0]), float(newp[1])]
+            c[j] = newp; audit(tag); continue
+        if do == "editmesh":
+            o, c, own = meshes[st["v"]]; j = st["j"] % len(c); newp = F(st["p"], den)
+            if own is not None: own[j] = [float(newp[0]), float(newp[1])]
+            else: o[j] = [float(newp[0]), float(newp[1])]
+            c[j] = newp; audit(tag); continue
+        r = st.get("r")
+        if do in ("subborder", "subbordergrid"):
+            if do == "subborder":
+                out = call_res(lambda: [int(v) for v in rels[r].sub_border_slim])
+                terms.append(f"(@CSubBorder QOps {cnat(r)}, @ONats QOps {cres(out, cnats)})")
+            else:
+                out = call_res(lambda: pts_out(rels[r].sub_border_grid))
+                terms.append(f"(@CSubBorderGrid QOps {cnat(r)}, @OPts QOps {cres_pts(out)})")
+            outs.append(out); read_sbs(r, tag); audit(tag); done += 1; continue
+        gi = st["g"]
+        if gi >= len(pool): continue
+        gobj, gc, _ = pool[gi]
+        rr = r if r is not None else 0
+        if do == "reloc":
+            if in_band_F(gc, border_of(gc, rr)): STATS["skipped_band"] += 1; continue
+            via = st["via"]
+            if via == "rel": f = lambda: rels[r].relocated_grid_from(grid=gobj)
+            elif via == "meshapi": f = lambda: MESH["Delaunay"].relocated_grid_from(border_relocator=rels[r], source_plane_data_grid=gobj)
+            elif via == "mapper": f = lambda: MESH["Voronoi"].mapper_grids_from(
+                mask=mask, border_relocator=rels[r], source_plane_data_grid=gobj,
+                source_plane_mesh_grid=aa.Grid2DIrregular(values=arrF(gc[:1]))).source_plane_data_grid
+            else: f = lambda: MESH["Rectangular"].mapper_grids_from(
+                mask=mask, border_relocator=rels[r], source_plane_data_grid=gobj).source_plane_data_grid
+            try: res = ("ok", f())
+            except Exception as e:
+                if via == "rect": continue                     # degenerate overlay: not a relocation matter
+                res = ("raise", exn_name(e))
+            out = ("ok", pts_out(res[1])) if res[0] == "ok" else res
+            terms.append(f"(@CReloc QOps {cnat(r)} {cptsF(gc)}, @OPts QOps {cres_pts(out)})")
+            outs.append(out)
+            if st.get("keep"):
+                if res[0] == "ok" and not np.shares_memory(np.asarray(res[1]), np.asarray(gobj)):
+                    pool.append([res[1], fr_pts(res[1]), None])            # the returned object itself is used later
+                else:
+                    cp = aa.Grid2DIrregular(values=arrF(gc)); pool.append([cp, list(gc), None])
+        elif do == "mesh":
+            vobj, vc, _ = meshes[st["v"]]
+            if in_band_F(vc, border_of(gc, rr)): STATS["skipped_band"] += 1; continue
+            if st["via"] == "rel": f = lambda: pts_out(rels[r].relocated_mesh_grid_from(grid=gobj, mesh_grid=vobj))
+            else: f = lambda: pts_out(MESH["Delaunay"].relocated_mesh_grid_from(
+                border_relocator=rels[r], source_plane_data_grid=gobj, source_plane_mesh_grid=vobj))
+            out = call_res(f)
+            terms.append(f"(@CMesh QOps {cnat(r)} {cptsF(gc)} {cptsF(vc)}, @OPts QOps {cres_pts(out)})"); outs.append(out)
+        elif do == "mapper":
+            vobj, vc, _ = meshes[st["v"]]
+            pre = st.get("pre")
+            if pre is not None and pre >= len(pool): pre = None
+            pc = pool[pre][1] if pre is not None else None
+            if r is not None:
+                if pre is None and in_band_F(gc, border_of(gc, r)): STATS["skipped_band"] += 1; continue
+                if in_band_F(vc, border_of(pc if pre is not None else gc, r)): STATS["skipped_band"] += 1; continue
+            M = MESH[st["kind"]]
+            def f():
+                kw = {} if pre is None else {"preloads": Preloads(relocated_grid=pool[pre][0])}
+                mg = M.mapper_grids_from(mask=mask, border_relocator=rels[r] if r is not None else None,
+                                         source_plane_data_grid=gobj, source_plane_mesh_grid=vobj, **kw)
+                return [pts_out(mg.source_plane_data_grid), pts_out(mg.source_plane_mesh_grid)]
+            out = call_res(f)
+            terms.append(f"(@CMapper QOps {copt(r, cnat)} {copt(pc, cptsF)} {cptsF(gc)} {cptsF(vc)}, @OPair QOps {cres(out, pair)})")
+            outs.append(out)
+        else: raise ValueError(do)
+        if r is not None: read_sbs(r, tag)
+        audit(tag); done += 1
+    for r in range(len(rels)):
+        if first_sbs[r] is None: read_sbs(r, "end")
+    if done == 0: return skipped()
+    rels_t = clist([ctup([cnats(subl[r]), cnats(first_sbs[r])]) for r in range(len(rels))])
+    coq = f"(KHist {cmask(m)} {cpt16(inp['ps'])} {cpt16(inp['origin'])} {rels_t} {clist(terms)})"
+    return dict(coq=coq, out=outs, py_ok=ok, nontrivial=True, kind="hist", detail="; ".join(notes) or None)
+
+# ----------------------------------------------------------------------------- scale equivariance
+def gen_scale(rng):
+    b = rand_border(rng)
+    inp = {"op": "scale", "border": b, "grid": rand_points(rng, b, rng.randint(2, 8)), "den": rng.choice([16, 64]),
+           "e": rng.choice([-40, -30, -27, -20, 20, 30, 40]), "via": "util"}
+    return inp
+
+def run_scale(aa, inp, skipped):
+    """relocation commutes with multiplication of all coordinates by 2^e (every floating-point operation of a
+    relocation commutes with it, bar under/overflow): tiny (1e-12) and huge (1e12) magnitudes behave like unit ones"""
+    from autoarray.structures.grids import grid_2d_util
+    den = inp["den"]; k = 2.0 ** inp["e"]
+    if inp["via"] == "util":
+        if in_band(inp["grid"], inp["border"], den): return skipped()
+        g, b = arr16(inp["grid"], den), arr16(inp["border"], den)
+        f = lambda gg, bb: np.asarray(grid_2d_util.relocated_grid_via_jit_from(grid=gg, border_grid=bb))
+        out = call_res(lambda: pts_out(f(g, b)))
+        big = call_res(lambda: f(g * k, b * k))
+        coq = f"(KUtil {cpts16(inp['grid'], den)} {cpts16(inp['border'], den)} {cres_pts(out)})"
+        gin = g
+    else:
+        mask, rel = make_relocator(aa, inp)
+        sbs = [int(v) for v in rel.sub_border_slim]
+        grid16 = inp["grid"]
+        border16 = [grid16[j] for j in sbs if 0 <= j < len(grid16)]
+        if in_band(grid16, border16, den): return skipped()
+        n = npix(inp["mask"]); subs = sub_list(inp["sub"], n)
+        g = arr16(grid16, den)
+        out = call_res(lambda: pts_out(rel.relocated_grid_from(grid=aa.Grid2DIrregular(values=g.copy()))))
+        big = call_res(lambda: np.asarray(rel.relocated_grid_from(grid=aa.Grid2DIrregular(values=g * k))))
+        coq = f"(KReloc {cmask(inp['mask'])} {cnats(subs)} {cnats(sbs)} {cpts16(grid16, den)} {cres_pts(out)})"
+        gin = g
+    ok = out[0] == big[0]
+    if ok and out[0] == "ok":
+        o = np.array(out[1]).reshape(-1, 2) * k; bg = np.asarray(big[1]).reshape(-1, 2)
+        ok = o.shape == bg.shape and bool(np.all(np.abs(o - bg) <= 1e-12 * np.abs(o)))
+        if ok:
+            same = np.all(np.array(out[1]).reshape(-1, 2) == gin, axis=1)          # untouched at unit scale
+            ok = bool(np.all(bg[same] == (gin * k)[same]))                         # then untouched, bit for bit, at 2^e
+    return dict(coq=coq, out=[out, big[0] if big[0] != "ok" else pts_out(big[1])], py_ok=ok, nontrivial=True, kind="scale_" + inp["via"],
+                detail=None if ok else "relocation at scale 2^e differs from 2^e times the relocation at unit scale")
 
 # ----------------------------------------------------------------------------- implementation calls
 def make_relocator(aa, inp):
@@ -279,17 +593,17 @@ def run_case(inp):
     from autoarray.structures.grids import grid_2d_util
     from autoarray.inversion.pixelization import border_relocator as br
     from autoarray.mask import mask_2d_util
-    op = inp["op"]
+    op = inp["op"]; den = inp.get("den", DEN)
     R = dict(py_ok=None, nontrivial=True, kind=op)
     def skipped():
         STATS["skipped_band"] += 1
         return dict(coq=None, out=None, py_ok=None, nontrivial=False, kind="skipped_band")
     if op == "util":
-        if in_band(inp["grid"], inp["border"]): return skipped()
-        g = arr16(inp["grid"]); g0 = g.copy()
-        out = call_res(lambda: pts_out(grid_2d_util.relocated_grid_via_jit_from(grid=g, border_grid=arr16(inp["border"]))))
-        R["py_ok"] = bool((g == g0).all())          # the caller's grid is not written
-        R.update(coq=f"(KUtil {cpts16(inp['grid'])} {cpts16(inp['border'])} {cres_pts(out)})", out=out,
+        if in_band(inp["grid"], inp["border"], den): return skipped()
+        g = arr16(inp["grid"], den); g0 = g.copy(); b = arr16(inp["border"], den); b0 = b.copy()
+        out = call_res(lambda: pts_out(grid_2d_util.relocated_grid_via_jit_from(grid=g, border_grid=b)))
+        R["py_ok"] = bool((g == g0).all() and (b == b0).all())          # the caller's arrays are not written
+        R.update(coq=f"(KUtil {cpts16(inp['grid'], den)} {cpts16(inp['border'], den)} {cres_pts(out)})", out=out,
                  nontrivial=bool(inp["grid"]) and bool(inp["border"]))
         return R
     if op in ("reloc", "mesh", "mapper"):
@@ -298,28 +612,28 @@ def run_case(inp):
             M = getattr(aa.mesh, inp["mesh_kind"])()
             def f():
                 mg = M.mapper_grids_from(mask=None, border_relocator=None,
-                                         source_plane_data_grid=aa.Grid2DIrregular(values=arr16(grid16)),
-                                         source_plane_mesh_grid=aa.Grid2DIrregular(values=arr16(mesh16)))
+                                         source_plane_data_grid=aa.Grid2DIrregular(values=arr16(grid16, den)),
+                                         source_plane_mesh_grid=aa.Grid2DIrregular(values=arr16(mesh16, den)))
                 return [pts_out(mg.source_plane_data_grid), pts_out(mg.source_plane_mesh_grid)]
             out = call_res(f)
-            R.update(coq=f"(KMapper None [] {cpts16(grid16)} {cpts16(mesh16)} "
+            R.update(coq=f"(KMapper None [] {cpts16(grid16, den)} {cpts16(mesh16, den)} "
                          f"{cres(out, lambda v: ctup([cptsf(v[0]), cptsf(v[1])]))})", out=out)
             return R
         mask, rel = make_relocator(aa, inp)
         n = npix(inp["mask"]); subs = sub_list(inp["sub"], n)
         sbs = [int(v) for v in rel.sub_border_slim]
         border16 = [grid16[k] for k in sbs if 0 <= k < len(grid16)]
-        if in_band(grid16, border16) or (op != "reloc" and in_band(mesh16, border16)): return skipped()
-        if inp["container"] == "grid2d": grid = aa.Grid2D(values=arr16(grid16), mask=mask)
-        else: grid = aa.Grid2DIrregular(values=arr16(grid16))
-        mesh = aa.Grid2DIrregular(values=arr16(mesh16))
+        if in_band(grid16, border16, den) or (op != "reloc" and in_band(mesh16, border16, den)): return skipped()
+        if inp["container"] == "grid2d": grid = aa.Grid2D(values=arr16(grid16, den), mask=mask)
+        else: grid = aa.Grid2DIrregular(values=arr16(grid16, den))
+        mesh = aa.Grid2DIrregular(values=arr16(mesh16, den))
         head = f"{cmask(inp['mask'])} {cnats(subs)}"
         if op == "reloc":
             out = call_res(lambda: pts_out(rel.relocated_grid_from(grid=grid)))
-            coq = f"(KReloc {head} {cnats(sbs)} {cpts16(grid16)} {cres_pts(out)})"
+            coq = f"(KReloc {head} {cnats(sbs)} {cpts16(grid16, den)} {cres_pts(out)})"
         elif op == "mesh":
             out = call_res(lambda: pts_out(rel.relocated_mesh_grid_from(grid=grid, mesh_grid=mesh)))
-            coq = f"(KMesh {head} {cnats(sbs)} {cpts16(grid16)} {cpts16(mesh16)} {cres_pts(out)})"
+            coq = f"(KMesh {head} {cnats(sbs)} {cpts16(grid16, den)} {cpts16(mesh16, den)} {cres_pts(out)})"
         elif inp["mesh_kind"] == "Rectangular":
             # mesh/rectangular.py: only the data grid is relocated (the mesh is overlaid on the relocated grid)
             M = aa.mesh.Rectangular(shape=(3, 3))
@@ -327,7 +641,7 @@ def run_case(inp):
                                                                source_plane_data_grid=grid).source_plane_data_grid))
             if out[0] != "ok":            # degenerate overlay (zero extent): not a relocation matter
                 return dict(coq=None, out=out, py_ok=None, nontrivial=False, kind="rectangular_overlay_failed")
-            coq = f"(KReloc {head} {cnats(sbs)} {cpts16(grid16)} {cres_pts(out)})"
+            coq = f"(KReloc {head} {cnats(sbs)} {cpts16(grid16, den)} {cres_pts(out)})"
             R["kind"] = "mapper_rectangular"
         else:
             M = getattr(aa.mesh, inp["mesh_kind"])()
@@ -336,10 +650,13 @@ def run_case(inp):
                                          source_plane_mesh_grid=mesh)
                 return [pts_out(mg.source_plane_data_grid), pts_out(mg.source_plane_mesh_grid)]
             out = call_res(f)
-            coq = (f"(KMapper (Some ({cmask(inp['mask'])}, {cnats(subs)})) {cnats(sbs)} {cpts16(grid16)} {cpts16(mesh16)} "
+            coq = (f"(KMapper (Some ({cmask(inp['mask'])}, {cnats(subs)})) {cnats(sbs)} {cpts16(grid16, den)} {cpts16(mesh16, den)} "
                    f"{cres(out, lambda v: ctup([cptsf(v[0]), cptsf(v[1])]))})")
         R.update(coq=coq, out=out)
+        R["py_ok"] = bool((np.array(grid) == arr16(grid16, den)).all() and (np.array(mesh) == arr16(mesh16, den)).all())
         return R
+    if op == "hist": return run_hist(aa, inp, skipped)
+    if op == "scale": return run_scale(aa, inp, skipped)
     if op == "subborder":
         m = inp["mask"]; n = npix(m); subs = sub_list(inp["sub"], n)
         if inp["via"] == "util":
